@@ -69,10 +69,14 @@ VariantsQuick == { V(FALSE, FALSE, 4, 1, "5", 250), V(TRUE, FALSE, 4, 1, "5", 25
                    JustResumed(4, "1"), WithUnfit(V(FALSE, FALSE, 4, 1, "34%", 250), 3), WithUnfit(V(FALSE, FALSE, 0, 1, "34%", 250), 3) }
 VariantsThorough == VariantsQuick \cup { V(FALSE, FALSE, a, i, c, mp) : a \in {0, 1, 5}, i \in {1, 2}, c \in {"1", "2", "100%"}, mp \in {1, 3} }
 
+\* creation allowance smaller than the number of nodes lacking a pod (slow start just begun / small maxParallelPodCreation), with a
+\* deletion budget of two or three: nodes that cannot get their pod in this sync are still nodes without an available pod
+Limited == { V(FALSE, FALSE, 0, 2, "1", 250), V(FALSE, FALSE, 3, 2, "1", 2), V(FALSE, FALSE, 1, 1, "1", 1) }
 V0 == V(FALSE, FALSE, 4, 1, "5", 250)
 Space == { Vec(lay, mu, sf, V0) : lay \in Layouts, mu \in MaxUs, sf \in MaxSFs } \cup
          { Vec(lay, "1", "0", var) : lay \in Layouts, var \in Variants } \cup
-         { Vec(lay, mu, "0", WithUnfit(V0, 3)) : lay \in Layouts, mu \in { m \in MaxUs : m \in {"25%", "50%"} } }
+         { Vec(lay, mu, "0", WithUnfit(V0, 3)) : lay \in Layouts, mu \in { m \in MaxUs : m \in {"25%", "50%"} } } \cup
+         { Vec(lay, mu, "0", var) : lay \in Layouts, var \in Limited, mu \in { m \in MaxUs : m \in {"2", "3"} } }
 
 ASSUME PrintT(<<"VECTORS", Cardinality(Space)>>)
 ASSUME ndJsonSerialize(OutFile, SetToSeq(Space))
